@@ -25,19 +25,61 @@ pub(crate) enum Act {
     /// exec_mut on admin/<db>: add one node
     ExecOn { db: String },
     AddUser { user: String },
+    /// exec_mut on admin/base: create node "x" with k = 0 (follower scenario seed)
+    SeedBase,
     GrantRole { db: String, user: String },
+}
+
+/// What the (simulated) leader sends to the follower under test.
+#[derive(Clone, Debug, Serialize, Deserialize, PartialEq)]
+pub(crate) enum LeaderMsg {
+    /// Append carrying entries first..first+n-1 (the leader's log ends there)
+    Append { first: u64, n: u64 },
+    /// Heartbeat announcing commit index `upto`
+    Commit { upto: u64 },
 }
 
 #[derive(Clone, Debug, Serialize, Deserialize)]
 pub(crate) struct Plan {
+    /// follower path: the node is fed Append / Heartbeat requests so that several entries are committed at once
+    #[serde(default)]
+    pub follower: Vec<LeaderMsg>,
     pub acts: Vec<Act>,
     /// yields before the execution task of the k-th concurrently committed action starts
     pub delays: Vec<u64>,
     pub restart: bool,
 }
 
+fn generate_follower(rng: &mut Rng) -> Plan {
+    // log: 1 = add the base database, 2 = seed it, 3.. = conflicting writes (same key, one node each)
+    let total = rng.range(5, 11);
+    let mut acts = vec![Act::AddDb { db: "base".into() }, Act::SeedBase];
+    for i in 3..=total {
+        acts.push(Act::SetKey { v: 100 + i as i64 });
+    }
+    let mut msgs = vec![];
+    let mut appended = 0u64;
+    let mut committed = 0u64;
+    while committed < total {
+        if appended < total && (appended == committed || rng.chance(2, 3)) {
+            let n = rng.range(1, 3).min(total - appended);
+            msgs.push(LeaderMsg::Append { first: appended + 1, n });
+            appended += n;
+        } else {
+            let upto = if rng.chance(1, 2) { appended } else { rng.range(committed + 1, appended) };
+            msgs.push(LeaderMsg::Commit { upto });
+            committed = upto;
+        }
+    }
+    let delays = (0..total).map(|_| rng.below(4)).collect();
+    Plan { follower: msgs, acts, delays, restart: rng.chance(1, 2) }
+}
+
 pub(crate) fn generate(seed: u64, run: u64, _tier: Tier) -> Plan {
     let mut rng = Rng::derive(seed, run, 31);
+    if rng.chance(2, 5) {
+        return generate_follower(&mut rng);
+    }
     let n = rng.range(2, 6);
     let mut acts = vec![];
     let mut dbs: Vec<String> = vec![];
@@ -63,7 +105,7 @@ pub(crate) fn generate(seed: u64, run: u64, _tier: Tier) -> Plan {
     }
     let reorder = rng.chance(4, 5);
     let delays = (0..n).map(|_| if reorder { rng.below(6) } else { 0 }).collect();
-    Plan { acts, delays, restart: rng.chance(1, 2) }
+    Plan { follower: vec![], acts, delays, restart: rng.chance(1, 2) }
 }
 
 type ActFuture<'a> = std::pin::Pin<Box<dyn std::future::Future<Output = crate::server_error::ServerResult<(u64, crate::action::ClusterActionResult)>> + 'a>>;
@@ -76,6 +118,7 @@ fn submit<'a>(s: &'a Server, a: &Act) -> ActFuture<'a> {
             db: "base".into(),
             queries: Queries(vec![QueryBuilder::insert().values([[("k", *v).into()]]).ids("x").query().into(), QueryBuilder::insert().nodes().count(1).query().into()]),
         })),
+        Act::SeedBase => Box::pin(s.cluster.exec(seed_exec())),
         Act::AddDb { db } => Box::pin(s.cluster.exec(DbAdd { owner: "admin".into(), db: db.clone(), db_type: DbKind::Mapped })),
         Act::ExecOn { db } => Box::pin(s.cluster.exec(DbExec { user: "admin".into(), owner: "admin".into(), db: db.clone(), queries: Queries(vec![QueryBuilder::insert().nodes().count(1).query().into()]) })),
         Act::AddUser { user } => {
@@ -84,6 +127,129 @@ fn submit<'a>(s: &'a Server, a: &Act) -> ActFuture<'a> {
         }
         Act::GrantRole { db, user } => Box::pin(s.cluster.exec(DbUserAdd { owner: "admin".into(), db: db.clone(), user: user.clone(), db_role: DbUserRole::Write })),
     }
+}
+
+fn seed_exec() -> DbExec {
+    DbExec { user: "admin".into(), owner: "admin".into(), db: "base".into(), queries: Queries(vec![QueryBuilder::insert().nodes().aliases("x").values([[("k", 0).into()]]).query().into()]) }
+}
+
+fn to_cluster_action(a: &Act) -> crate::action::ClusterAction {
+    match a {
+        Act::SetKey { v } => DbExec {
+            user: "admin".into(),
+            owner: "admin".into(),
+            db: "base".into(),
+            queries: Queries(vec![QueryBuilder::insert().values([[("k", *v).into()]]).ids("x").query().into(), QueryBuilder::insert().nodes().count(1).query().into()]),
+        }
+        .into(),
+        Act::SeedBase => seed_exec().into(),
+        Act::AddDb { db } => DbAdd { owner: "admin".into(), db: db.clone(), db_type: DbKind::Mapped }.into(),
+        Act::ExecOn { db } => DbExec { user: "admin".into(), owner: "admin".into(), db: db.clone(), queries: Queries(vec![QueryBuilder::insert().nodes().count(1).query().into()]) }.into(),
+        Act::AddUser { user } => {
+            let p = crate::password::Password::create(user, "password123");
+            UserAdd { user: user.clone(), password: p.password.to_vec(), salt: p.user_salt.to_vec() }.into()
+        }
+        Act::GrantRole { db, user } => DbUserAdd { owner: "admin".into(), db: db.clone(), user: user.clone(), db_role: DbUserRole::Write }.into(),
+    }
+}
+
+/// A request as the leader (node 1, term 1) would send it; built through Request's Deserialize.
+fn leader_request(hash: u64, log_index: u64, log_commit: u64, entries: Option<Vec<(u64, Vec<u8>)>>) -> crate::raft::Request<crate::action::ClusterAction> {
+    let data = match entries {
+        Some(e) => json!({"Append": e.into_iter().map(|(index, bytes)| json!({"index": index, "term": 1, "data": bytes})).collect::<Vec<_>>()}),
+        None => json!("Heartbeat"),
+    };
+    serde_json::from_value(json!({"hash": hash, "index": 1, "target": 0, "term": 1, "log_index": log_index, "log_term": 1, "log_commit": log_commit, "data": data})).expect("request json")
+}
+
+/// Observable state of the follower read directly (its HTTP API would forward to a leader that does not exist).
+async fn observe_follower(s: &Server) -> Value {
+    use agdb::*;
+    let mut out = serde_json::Map::new();
+    let mut names: Vec<String> = s.server_db.dbs().await.map(|v| v.into_iter().map(|d| format!("{}/{}", d.owner, d.db)).collect()).unwrap_or_default();
+    names.sort();
+    out.insert("dbs".into(), json!(names));
+    let q = Queries(vec![QueryType::SelectNodeCount(SelectNodeCountQuery {}), QueryBuilder::select().values("k").ids("x").query().into()]);
+    match s.db_pool.exec("admin", "base", q).await {
+        Ok(r) => {
+            out.insert("base:nodes".into(), json!(r[0].result));
+            out.insert("base:k".into(), serde_json::to_value(&r[1].elements).unwrap_or_default());
+        }
+        Err(e) => {
+            out.insert("base:error".into(), json!(e.description));
+        }
+    }
+    Value::Object(out)
+}
+
+async fn run_follower(plan: &Plan, dir: &str, msgs: &[LeaderMsg], use_delays: bool) -> Result<Outcome, String> {
+    use agdb::StableHash;
+    let s = Server::start_follower(dir).await?;
+    let mut sorted: Vec<String> = s.config.cluster.iter().map(|u| u.to_string()).collect();
+    sorted.sort();
+    let hash = sorted.stable_hash();
+    let mut rx = s.cluster.raft.read().await.storage.subscribe().await;
+    let delays = plan.delays.clone();
+    if use_delays {
+        crate::verif_hooks::set_task_delays(Some(Box::new(move |index| delays.get(index.saturating_sub(1) as usize).copied().unwrap_or(0))));
+    } else {
+        crate::verif_hooks::set_task_delays(None);
+    }
+    let total = plan.acts.len() as u64;
+    let mut appended = 0u64;
+    let mut committed = 0u64;
+    let mut results = vec![];
+    for m in msgs {
+        let req = match m {
+            LeaderMsg::Append { first, n } => {
+                let entries: Vec<(u64, Vec<u8>)> = (*first..first + n).filter(|i| *i <= total).map(|i| (i, agdb::AgdbSerialize::serialize(&to_cluster_action(&plan.acts[i as usize - 1])))).collect();
+                appended = appended.max(first + n - 1).min(total);
+                leader_request(hash, appended, committed, Some(entries))
+            }
+            LeaderMsg::Commit { upto } => {
+                committed = (*upto).min(appended);
+                leader_request(hash, appended, committed, None)
+            }
+        };
+        let resp = s.cluster.raft.write().await.request(&req).await;
+        results.push(Ok::<u64, String>(serde_json::to_value(&resp).map(|v| v["result"].to_string().len() as u64).unwrap_or(0)).and(Ok(0)));
+        for _ in 0..3 {
+            tokio::task::yield_now().await;
+        }
+    }
+    // let the executor finish what was committed
+    let mut order = vec![];
+    for _ in 0..2000 {
+        while let Ok(i) = rx.try_recv() {
+            order.push(i);
+        }
+        if order.len() as u64 >= committed {
+            break;
+        }
+        tokio::task::yield_now().await;
+    }
+    crate::verif_hooks::set_task_delays(None);
+    let state = observe_follower(&s).await;
+    s.stop().await;
+    Ok(Outcome { order, results, state, state_after_restart: None })
+}
+
+async fn follower_after_restart(dir: &str) -> Result<Value, String> {
+    let s = Server::start_follower(dir).await?;
+    let mut rx = s.cluster.raft.read().await.storage.subscribe().await;
+    for _ in 0..50 {
+        tokio::task::yield_now().await;
+    }
+    let mut again = vec![];
+    while let Ok(i) = rx.try_recv() {
+        again.push(i);
+    }
+    let mut st = observe_follower(&s).await;
+    if !again.is_empty() {
+        st["executed_again_after_restart"] = json!(again);
+    }
+    s.stop().await;
+    Ok(st)
 }
 
 /// Observable server state through the admin API.
@@ -226,6 +392,25 @@ pub(crate) fn exec(plan: &Plan, trials: &mut Trials) -> RunReport {
     let a = Scratch::new("c31a", rep.prog_hash);
     let b = Scratch::new("c31b", rep.prog_hash);
     let r = catch(|| {
+        if !plan.follower.is_empty() {
+            let rt = runtime();
+            let mut conc = rt.block_on(run_follower(plan, &a.0, &plan.follower, true))?;
+            drop(rt);
+            if plan.restart {
+                let rt = runtime();
+                conc.state_after_restart = Some(rt.block_on(follower_after_restart(&a.0))?);
+                drop(rt);
+            }
+            // reference: the same log delivered and committed one entry at a time
+            let seq_msgs: Vec<LeaderMsg> = (1..=plan.acts.len() as u64).flat_map(|i| [LeaderMsg::Append { first: i, n: 1 }, LeaderMsg::Commit { upto: i }]).collect();
+            let rt = runtime();
+            let mut seq = rt.block_on(run_follower(plan, &b.0, &seq_msgs, false))?;
+            drop(rt);
+            // responses are per message, not per action: only order and state are compared
+            seq.results = vec![];
+            conc.results = vec![];
+            return Ok::<_, String>((conc, seq));
+        }
         let rt = runtime();
         let mut conc = rt.block_on(run_one(plan, &a.0, true))?;
         drop(rt);
@@ -240,7 +425,23 @@ pub(crate) fn exec(plan: &Plan, trials: &mut Trials) -> RunReport {
         Ok::<_, String>((conc, seq))
     });
     rep.evals = 1;
-    let reordering = plan.delays.windows(2).any(|w| w[0] > w[1]);
+    let multi_commit = {
+        let mut prev = 0u64;
+        let mut any = false;
+        for m in &plan.follower {
+            if let LeaderMsg::Commit { upto } = m {
+                if *upto >= prev + 2 {
+                    any = true;
+                }
+                prev = (*upto).max(prev);
+            }
+        }
+        any
+    };
+    if !plan.follower.is_empty() {
+        rep.count("config.follower_path", 1);
+    }
+    let reordering = plan.delays.windows(2).any(|w| w[0] > w[1]) || multi_commit;
     if reordering {
         rep.nontrivial = 1;
         rep.count("fault.task_start_reordered", 1);
